@@ -9,8 +9,9 @@
    touched by its own (iface, mask) entry, which is what this per-subscription list records.
 
    Events: Subscribe | WatchStart (the call of Watch up to the hook) | Notify changeset (the hook
-   calls notify) | Drain i n (subscriber i does n non-blocking receives) | EndWatch (the hook
-   returned: Watch's deferred close loop).  [step] returns None where the Go runtime panics
+   calls notify) | Drain i n (subscriber i does n non-blocking receives) | EndWatch failed (the hook
+   returned, with a nil or a non-nil error: Watch's deferred close loop runs in both cases, then
+   Watch returns what the hook returned).  [step] returns None where the Go runtime panics
    (send on a closed channel, close of a closed channel).  [notify] never waits: it is a total
    function of the state, which is the model's rendering of "never blocks the watcher".
    No proofs in this file. *)
@@ -112,11 +113,12 @@ Inductive event :=
 | WatchStart
 | Notify (changed : list (N * list N))
 | Drain (i n : nat)
-| EndWatch.
+| EndWatch (failed : bool).                (* the watch function returned: nil / an error *)
 
 Inductive out :=
 | OWatch (panicked : bool)                 (* Watch called: "multiple calls" panic or not *)
-| ODrain (vals : list N) (closed_seen : bool).
+| ODrain (vals : list N) (closed_seen : bool)
+| OEnd (err : bool).                       (* the running Watch call returned: nil / the hook's error *)
 
 (* k&change != 0 for the entry this subscription lives in *)
 Definition wants (s : sub) (iface c : N) : bool :=
@@ -199,12 +201,13 @@ Definition step (st : state) (e : event) : option (state * list out) :=
       | None => Some (st, [])
       | Some s => Some (mkSt (upd_nth i (drain_sub n) (subs st)) (watching st) (ended st), [drain_out n s])
       end
-  | EndWatch =>
-      (* the deferred function of the one successful Watch call: enabled once *)
+  | EndWatch failed =>
+      (* the deferred function of the one successful Watch call: enabled once; it runs whatever
+         the watch function returned, and Watch then returns that value *)
       if watching st && negb (ended st) then
         match map_opt close_sub (subs st) with
         | None => None
-        | Some ss => Some (mkSt ss true true, [])
+        | Some ss => Some (mkSt ss true true, [OEnd failed])
         end
       else Some (st, [])
   end.
@@ -232,6 +235,6 @@ Fixpoint valid_from (w e : bool) (evs : list event) : bool :=
   | Drain _ _ :: r => valid_from w e r
   | WatchStart :: r => valid_from true e r
   | Notify _ :: r => w && negb e && valid_from w e r
-  | EndWatch :: r => w && negb e && valid_from w true r
+  | EndWatch _ :: r => w && negb e && valid_from w true r
   end.
 Definition valid (evs : list event) : bool := valid_from false false evs.
